@@ -187,7 +187,10 @@ def rule_pairs(ctx, n):
     rng = ctx.rng
     for _ in range(n):
         case = gen_case(rng)
-        cfg = rulegen.gen_rule_cfg(rng, case, allow_refuse=False)
+        if rng.random() < 0.35:
+            # larger elections with few distinct ballots: high multiplicities, several rounds, supporters running out of money
+            case = core.gen_big_election(rng, btypes=("app", "app", "card"), m=(4, 8), n=(5, 10), distinct=3)
+        cfg = rulegen.gen_rule_cfg(rng, case, rules=("mes", "mes", "phragmen", "greedy", "maxw"), allow_refuse=False)
         if not cfg["res"] and len(case.projects) > 5:
             cfg["res"] = True
         yield case, cfg
@@ -230,6 +233,49 @@ def run(ctx, n_rules=None, n_el=None, compare=True):
             if o.strip() != impl_s.strip():
                 ctx.disagreements.append({"line": line, "impl": impl_s, "model": o.strip(), "case": case.to_json(), "cfg": ruleprops.cfg_json(cfg)})
             ctx.sample(f"{line} -> impl(list profile): {impl_s} | model(compressed): {o.strip()}", cap=4)
+    # (a') the wrappers (budget increase with its default bound, completion, iterated Equal Shares) on both forms
+    from . import C09
+
+    for _ in range(ctx.scale(700, 5000)):
+        if ctx.budget_s is not None and ctx.elapsed() > ctx.budget_s:
+            break
+        case, cfg = C09.gen(ctx)
+        if ctx.rng.random() < 0.45:
+            # a large block of identical ballots and one or two lone voters who alone approve some project: that project is only
+            # bought once the per-voter money reaches its cost, i.e. after about (number of VOTERS) budget multiples
+            rng = ctx.rng
+            k = rng.randint(2, 4)
+            names = rng.sample(core.NAME_POOL, k)
+            costs = [F(rng.choice([1, 1, 2, F(1, 2)])) for _ in names]
+            lone = names[-1]
+            block = [n for n in names[:-1] if rng.random() < 0.7] or [names[0]]
+            ballots = [list(block) for _ in range(rng.randint(5, 11))] + [[lone]] * rng.randint(1, 2)
+            rng.shuffle(ballots)
+            case = Case(list(zip(names, costs)), F(rng.choice([1, 2, 2, 3])) if True else F(1), "app", ballots, rng.getrandbits(32))
+            cfg = {"mode": "increase", "tie": "lexico", "res": rng.random() < 0.7, "multi": False, "init": [], "rule": rng.choice(["mes:Cost_Sat", "mes:Cardinality_Sat"]),
+                   "step": F(rng.choice([1, F(1, 2), 2])), "stop": True}
+        elif ctx.rng.random() < 0.5 and case.projects:
+            # many voters, few distinct ballots: the voter count and the number of distinct ballots differ widely
+            names = [n for n, _ in case.projects]
+            protos = core.gen_ballots(ctx.rng, "app", names, 2, 3, distinct_hi=3)
+            ballots = [list(protos[i % len(protos)]) for i in range(ctx.rng.randint(6, 12))]
+            case = Case(case.projects, case.budget, "app", ballots, case.seed)
+        outs = []
+        if ctx.rng.random() < 0.7:
+            cfg.pop("bound_mult", None)  # the documented default bound: budget * (number of voters + 1)
+        for multi in (False, True):
+            c2 = dict(cfg, multi=multi)
+            built = rules.Built(case, multi=multi)
+            try:
+                out = C09.run_wrapper(case, c2, built)
+                outs.append(sorted([C09.ids(case, out)] if c2["res"] else [C09.ids(case, o) for o in out]))
+            except Exception as e:  # noqa: BLE001
+                outs.append("err " + core.err_enum(e))
+        ctx.evaluations += 1
+        ctx.count("wrapper", cfg["mode"])
+        if outs[0] != outs[1]:
+            ctx.violations.append(violation("wrapper outcome differs between profile and multiprofile", case, cfg, impl=outs[1], expected=outs[0],
+                                            sig={"call": "wrapper:" + cfg["mode"]}))
     # (b) measures and analysis functions
     for k in range(n_el):
         if ctx.budget_s is not None and ctx.elapsed() > ctx.budget_s:
